@@ -7,7 +7,7 @@ from harness.common import T
 from harness.main import Engine
 
 PID = 'C02'
-LEVEL = 'translation_validation'
+LEVEL = 'proof'
 RULE = ('parser/value: generator A renders random literal trees (depth <= 5: ints in all bases / underscores / huge, '
         'floats incl. exponents, 1., .5, overflow to inf, complex, str/bytes with every prefix, both quotes, triple '
         'quotes, escapes, 1-4 adjacent pieces, booleans, None, lists, tuples, one-tuples, parenthesised values, '
